@@ -16,8 +16,8 @@ Lemma skip_reads_reviewed : skip_reads = reviewed_skip_reads.
 Proof. reflexivity. Qed.
 
 Lemma define_guard_structure :
-  define_codes_before_guard = [] /\
-  define_codes_after_guard = [s "MACRO_NAME_CAPITAL"; s "MACRO_FUNC_FORBIDDEN"; s "PREPROC_CONSTANT"; s "PREPROC_CONSTANT"] /\
+  define_codes_before_guard = [s "MACRO_NAME_CAPITAL"; s "MACRO_FUNC_FORBIDDEN"] /\
+  define_codes_after_guard = [s "PREPROC_CONSTANT"; s "PREPROC_CONSTANT"] /\
   define_after_guard_calls = reviewed_define_after_guard_calls /\
   define_after_guard_targets = ["i"%string] /\
   silenced_code_mentions = reviewed_silenced_code_mentions /\
@@ -181,22 +181,32 @@ Lemma define_check_skip : forall o,
   define_check true o = filter (fun c => negb (str_in c silenced_codes)) (define_check false o).
 Proof. intros [[] [] [] []]; vm_compute; reflexivity. Qed.
 
-Lemma define_check_codes : forall o c, In c (define_check false o) -> In c define_codes_after_guard.
+Lemma define_check_codes : forall o c, In c (define_check false o) ->
+  In c (define_codes_before_guard ++ define_codes_after_guard).
 Proof.
   intros o c H. apply str_in_In. revert H. destruct o as [[] [] [] []]; cbn; intros H;
     repeat (destruct H as [H|H]; [subst c; vm_compute; reflexivity|]); destruct H.
 Qed.
 
-Lemma define_check_value_only_partial : forall o, do_name_upper o = true -> do_lparen o = false ->
-  define_check true o = filter (fun c => negb (str_in c define_value_codes)) (define_check false o).
-Proof. intros [[] [] [] []]; cbn; intros; try discriminate; vm_compute; reflexivity. Qed.
-
-(* -R CheckDefine also silences diagnostics that are not about the #define value *)
-Lemma define_check_silences_more :
-  exists o c, In c (define_check false o) /\ ~ In c (define_check true o) /\ str_in c define_value_codes = false.
+(* the silenced codes are exactly what the property calls the #define-value diagnostics *)
+Lemma silenced_is_define_value : forall c, str_in c silenced_codes = str_in c define_value_codes.
 Proof.
-  exists (mkdobs true false false false), (s "MACRO_NAME_CAPITAL"). split; [left; reflexivity|].
-  split; [intros []|vm_compute; reflexivity].
+  intros c. change silenced_codes with [s "PREPROC_CONSTANT"; s "PREPROC_CONSTANT"].
+  unfold define_value_codes, str_in. cbn [existsb]. destruct (str_eqb c (s "PREPROC_CONSTANT")); reflexivity.
+Qed.
+
+(* -R CheckDefine removes only the #define-value diagnostics, on every #define line *)
+Lemma define_check_value_only : forall o,
+  define_check true o = filter (fun c => negb (str_in c define_value_codes)) (define_check false o).
+Proof. intros [[] [] [] []]; vm_compute; reflexivity. Qed.
+
+(* `# define foo(x) x` (and with a rejected value): the diagnostics about the NAME and about function-like macros stay *)
+Lemma define_check_keeps_name_checks : forall bad,
+  define_check true (mkdobs true false true bad) = [s "MACRO_NAME_CAPITAL"; s "MACRO_FUNC_FORBIDDEN"] /\
+  (forall o c, In c (define_check false o) -> str_in c define_value_codes = false -> In c (define_check true o)).
+Proof.
+  intros bad. split; [destruct bad; reflexivity|].
+  intros o c H Hc. rewrite define_check_value_only. apply filter_In. split; [exact H|]. rewrite Hc. reflexivity.
 Qed.
 
 (* whole run.  Hypothesis: a turn of the loop under skip_define does what it does without, minus the silenced
@@ -236,17 +246,15 @@ Theorem R_checkdefine_removes_only : forall (Core : Type) (es : emit_step Core),
     run_st (S ntokens) (lift_emit es true) d (c, []) ntokens 0 [] = Ok (segs, (c', filter_silenced ds')).
 Proof. intros Core es HS ntokens d c segs c' ds' H. apply (R_checkdefine_removes_only_st es HS _ _ _ [] _ _ _ _ _ _ H). Qed.
 
-(* what is kept: everything whose code is not MACRO_NAME_CAPITAL / MACRO_FUNC_FORBIDDEN / PREPROC_CONSTANT *)
-Lemma filter_silenced_spec : forall ds d, In d (filter_silenced ds) <->
-  In d ds /\ d_name d <> s "MACRO_NAME_CAPITAL" /\ d_name d <> s "MACRO_FUNC_FORBIDDEN" /\ d_name d <> s "PREPROC_CONSTANT".
+(* what is kept: everything whose code is not PREPROC_CONSTANT *)
+Lemma filter_silenced_spec : forall ds d, In d (filter_silenced ds) <-> In d ds /\ d_name d <> s "PREPROC_CONSTANT".
 Proof.
   intros ds d. unfold filter_silenced. rewrite filter_In. unfold keep_diag. rewrite negb_true_iff.
   split; intros [H1 H2]; (split; [exact H1|]).
-  - repeat split; intros E; rewrite E in H2; vm_compute in H2; discriminate.
-  - destruct H2 as [A [B C]]. destruct (str_in (d_name d) silenced_codes) eqn:E; [|reflexivity].
-    apply str_in_In in E. change silenced_codes with
-      [s "MACRO_NAME_CAPITAL"; s "MACRO_FUNC_FORBIDDEN"; s "PREPROC_CONSTANT"; s "PREPROC_CONSTANT"] in E.
-    destruct E as [E|[E|[E|[E|[]]]]]; symmetry in E; contradiction.
+  - intros E; rewrite E in H2; vm_compute in H2; discriminate.
+  - destruct (str_in (d_name d) silenced_codes) eqn:E; [|reflexivity].
+    apply str_in_In in E. change silenced_codes with [s "PREPROC_CONSTANT"; s "PREPROC_CONSTANT"] in E.
+    destruct E as [E|[E|[]]]; symmetry in E; contradiction.
 Qed.
 
 (* non-vacuity of skip_filters: a loop whose turns are #define statements checked by define_check *)
